@@ -1064,7 +1064,7 @@ pub fn check(ctx: &Ctx) {
         run_small,
     );
     ctx.assume("a consumer stops at the first error; behaviour after an error is outside std::io::Read's contract and outside the property");
-    ctx.assume("zero-length consumer reads are not part of the schedules (Ok(0) for an empty buffer is not end of stream)");
+    ctx.assume("a read into an empty buffer is part of the scripted consumer's menu: it answers Ok(0), is not the end of the stream and must leave the result unchanged");
 }
 
 pub fn replay(space: &str, case: &Value) -> Option<Outcome> {
